@@ -2,7 +2,7 @@
 from hypothesis import strategies as st
 
 from .. import formula as F
-from ..common import dt_cases, std_candidates, feature_labels, fmt_vals
+from ..common import dt_cases, std_candidates, feature_labels, fmt_vals, giant_cases
 from ..formula import Profile, from_json, show
 from ..monitors import run_dt_on, run_dt_off
 from ..refsem import dt, Undefined, needs_tolerance, same
@@ -12,7 +12,7 @@ PROPERTY = 'C02'
 
 RULE = ('Typed random past-time STL grammar (no future operator; reuse of already drawn sub-formulas raised to 0.3 so that '
         'duplicate printed names over stateful nodes are common) x random traces of length 1..16 fed one update() per sample with '
-        'exactly the free variables (lanes main, dup, deep, and long: 16-48 samples with bounds up to 20; one trace in five uses very few distinct values so that exact zeros and ties occur). Oracle: update_i == R-dt(spec, w)[i] (reference) and == rtamt offline evaluate(w)[i] for every i. '
+        'exactly the free variables (lanes main, dup, deep, and long: 16-48 samples with bounds up to 20; one trace in five uses very few distinct values so that exact zeros and ties occur). Lane giant: once/historically with windows of 200..1100 samples (around 256, 512, 1024), since up to 300, lower bound 0..300, mostly flat traces with isolated extreme samples. Oracle: update_i == R-dt(spec, w)[i] (reference) and == rtamt offline evaluate(w)[i] for every i. '
         'Non-trivial = formula has a stateful operator (prev, s_prev, rise, fall, once, historically, since, bounded or not) and '
         'n >= 2; distinct = distinct (formula text, trace) digests.')
 
@@ -149,6 +149,7 @@ def strat_verylong_(draw, tier):
 
 
 LANES = [
+    Lane('giant', lambda tier: giant_cases(F.TUN_PAST, ('since',)), check, 60, 600, None),
     Lane('verylong', lambda tier: strat_verylong_(tier), check, 150, 2000, std_candidates),
     Lane('near_twins', lambda tier: strat_near_twins_(tier), check, 2000, 30000, std_candidates),
     Lane('floats', strat_floats, check, 1000, 15000, std_candidates),
